@@ -18,6 +18,32 @@ CHK, REL = "full-chk", "deflt"
 STEP_C = 160.0
 
 
+def directed_payload():
+    """Texts whose errors are raised by the nested parsers on reconstructed text (f-string fields: self-documenting `=`,
+    conversions, specs, CR/CRLF inside the field, nested quotes, escapes) with multi-byte characters right before the
+    place where parsing fails: a mis-translated error offset lands inside a character."""
+    heads = ["x", "'a'", "1", "é", "d['é']", "(a,"]
+    tails = ["'\\N{é'", "é é", "'é' 'é' $", "é)", "日 日", "'日'é", "é é=", "'é'\\", "\\N{é}", "é'", "𝄞 𝄞", "'𝄞' !", "lambda é é", "é :="]
+    texts = []
+    for q in ("'", '"', "'" * 3, '"' * 3):
+        for pre in ("f", "rf", "F"):
+            for h_ in heads:
+                for t_ in tails:
+                    if q[0] in h_ + t_ and len(q) == 1:
+                        continue
+                    for body in ("{%s=%s}" % (h_, t_), "{%s = %s}" % (h_, t_), "{%s=!r:%s}" % (h_, t_), "{%s:{%s}}" % (h_, t_), "é{%s}{%s=}" % (h_, t_), "{%s!r}{%s}" % (h_, t_)):
+                        texts.append(pre + q + body + q)
+                    if len(q) == 3:
+                        for nl in ("\r\n", "\n", "\r"):
+                            texts.append(pre + q + "{" + nl + t_ + "}" + q)
+                            texts.append(pre + q + "é" + nl + "{" + h_ + nl + "=" + t_ + "}" + q)
+    out = b""
+    for t in ["\x00VERBATIM"] + texts:
+        b = t.encode("utf-8")
+        out += str(len(b)).encode() + b"\n" + b
+    return out, len(texts)
+
+
 def seeds_payload(seed, n, maxlen):
     rng = core.rng_for(seed, "c03-seeds")
     texts = []
@@ -258,6 +284,12 @@ def run(res):
         jobs.append((REL, seed + 7, j * per, per, 400, 8192, payload_small))
     for j in range(4 if not thorough else 12):
         jobs.append((CHK, seed + 13, j * 1500, 1500, 3000, 262144, payload_big))
+    payload_directed, ndirected = directed_payload()
+    chunk = 1500
+    for rep in range(1 if not thorough else 4):   # every directed input once (thorough: four times, other modes / offsets)
+        for j in range(0, ndirected, chunk):
+            jobs.append((CHK if rep % 2 == 0 else REL, seed + 21 + rep, j, min(chunk, ndirected - j), 400, 8192, payload_directed))
+    res.cover["directed_nested_parser_error_seeds"] = ndirected
     parts = core.pmap(_fuzz_job, jobs, init=tw.init_state, initargs=(bins,))
     for p in parts:
         res.merge(p)
